@@ -104,3 +104,58 @@ pub fn changed_lines_broken(changed: &[usize], rows: usize) -> Option<String> {
     }
     None
 }
+
+/// One call on `avt::Builder`.
+#[derive(Clone, Copy, Debug, PartialEq)]
+pub enum BCall {
+    Size(usize, usize),
+    Limit(usize),
+}
+
+/// Every sequence of up to three builder calls over two sizes and three limits, with the
+/// (size, limit) the built terminal must have: the last of each kind, else 80x24 / unlimited.
+pub fn builder_sequences() -> Vec<(Vec<BCall>, (usize, usize), Option<usize>)> {
+    let calls = [BCall::Size(3, 2), BCall::Size(5, 4), BCall::Limit(0), BCall::Limit(2), BCall::Limit(12)];
+    let mut seqs: Vec<Vec<BCall>> = vec![vec![]];
+    let mut level: Vec<Vec<BCall>> = vec![vec![]];
+    for _ in 0..3 {
+        let mut next = vec![];
+        for s in &level {
+            for c in calls {
+                let mut x = s.clone();
+                x.push(c);
+                next.push(x);
+            }
+        }
+        seqs.extend(next.iter().cloned());
+        level = next;
+    }
+    seqs.into_iter()
+        .map(|s| {
+            let mut size = (80, 24);
+            let mut limit = None;
+            for c in &s {
+                match c {
+                    BCall::Size(a, b) => size = (*a, *b),
+                    BCall::Limit(l) => limit = Some(*l),
+                }
+            }
+            (s, size, limit)
+        })
+        .collect()
+}
+
+pub fn build_by(calls: &[BCall]) -> Vt {
+    let mut b = Vt::builder();
+    for c in calls {
+        match c {
+            BCall::Size(a, r) => {
+                b.size(*a, *r);
+            }
+            BCall::Limit(l) => {
+                b.scrollback_limit(*l);
+            }
+        }
+    }
+    b.build()
+}
